@@ -135,11 +135,18 @@ def _do_access(cache, kind, n, state=None):
 
 
 def body_history(n, hist, thr, *args):
-    vals, reads = list(args[:NV]), list(args[NV:])
+    vals, reads, nc = list(args[:NV]), list(args[NV:2 * NV]), args[2 * NV]
     for a in range(NV):
         for b in range(a + 1, NV):
             rt.assume(vals[a] != vals[b])
     rt.assume(thr >= 1)
+    # the value the upstream produces on its nc-th call is None (nc outside 0..NV-1: no such call): a pipeline value like any other,
+    # which a cache must store and serve instead of mistaking it for "not cached"
+    rt.assume(-1 <= nc)
+    rt.assume(nc <= 5)
+    for j in range(NV):
+        if j == nc:
+            vals[j] = None
     log = []
     mem = _Mem(reads)
     saved = sys.modules.get('psutil')
@@ -269,7 +276,7 @@ def _hist_conds(tier, seed):
 VP = [(f'v{i}', 'int') for i in range(NV)]
 MP = [(f'm{i}', 'int') for i in range(NV)]
 FAMILIES = [
-    Family('history', body_history, ['n', 'hist'], [('thr', 'int')] + VP + MP, _hist_conds, timeout=dict(quick=60, thorough=300),
+    Family('history', body_history, ['n', 'hist'], [('thr', 'int')] + VP + MP + [('nc', 'int')], _hist_conds, timeout=dict(quick=60, thorough=300),
            desc='access histories: returned values are pipeline values, frozen once cached, at most one upstream call per example while memory permits'),
     Family('after_latch', body_after_latch, ['n'], [('thr', 'int')] + VP + MP, lambda tier, seed: [(2,), (3,)], timeout=60,
            desc='after the threshold is crossed nothing new is cached, earlier entries stay frozen'),
